@@ -545,20 +545,24 @@ fn may_be_unsized(ty: &Type, generics: &syn::Generics) -> bool {
     }
     match ty {
         Type::Slice(_) | Type::TraitObject(_) => true,
+        Type::Paren(p) => may_be_unsized(&p.elem, generics),
+        Type::Group(g) => may_be_unsized(&g.elem, generics),
         Type::Path(p) if p.qself.is_none() => {
             let Some(ident) = p.path.get_ident() else {
                 return false;
             };
+            // `r#T` is `T`.
+            let ident = &ident.unraw();
             if ident == "str" {
                 return true;
             }
             let in_params = generics
                 .type_params()
-                .any(|tp| &tp.ident == ident && tp.bounds.iter().any(is_maybe_sized));
+                .any(|tp| &tp.ident.unraw() == ident && tp.bounds.iter().any(is_maybe_sized));
             let in_where = generics.where_clause.iter().any(|w| {
                 w.predicates.iter().any(|pred| match pred {
                     syn::WherePredicate::Type(pt) => {
-                        matches!(&pt.bounded_ty, Type::Path(b) if b.qself.is_none() && b.path.is_ident(ident))
+                        matches!(&pt.bounded_ty, Type::Path(b) if b.qself.is_none() && matches!(b.path.get_ident(), Some(i) if &i.unraw() == ident))
                             && pt.bounds.iter().any(is_maybe_sized)
                     }
                     _ => false,
